@@ -312,6 +312,25 @@ func (s *OuterJoin) receiveRecord(ctx ExecutionContext, produce ProduceFn, myRec
 		key[i] = value
 	}
 
+	for i := range key {
+		if key[i].TypeID == octosql.TypeIDNull {
+			// The keys come from equality predicates, and NULL = anything is never true: such a record can't match,
+			// so the only output it can cause is its own NULL-padded row.
+			if (s.isOuterLeft && amLeft) || (s.isOuterRight && !amLeft) {
+				outputValues := make([]octosql.Value, s.leftFieldCount+s.rightFieldCount)
+				if amLeft {
+					copy(outputValues, record.Values)
+				} else {
+					copy(outputValues[s.leftFieldCount:], record.Values)
+				}
+				if err := produce(ProduceFromExecutionContext(ctx), NewRecord(outputValues, record.Retraction, record.EventTime)); err != nil {
+					return fmt.Errorf("couldn't produce: %w", err)
+				}
+			}
+			return nil
+		}
+	}
+
 	firstRecordForThatKeyOnThisSide := false
 	lastRetractionForThatKeyOnThisSide := false
 	{
